@@ -33,7 +33,7 @@ SPEC = {
         "GenerateAnonymousCredentials / GenerateChallenge never fail (memory storage, crypto/rand)",
         "handshake messages of one server are processed one at a time (the session layer's per-connection read loop); "
         "ControlConnection.ClientID/Authenticated are plain fields and concurrent handshakes on one connection are out of scope",
-        "a stale client-index entry after a valid re-authentication under another id (C07's finding) is reproduced by the model and is "
-        "not a C03 violation: the connection did prove that client's key earlier",
+        "the client index holds object pointers; the model keeps connection ids, which coincide with object identity for "
+        "connections that are in connMap (the only ones the registry indexes or unindexes)",
     ],
 }
